@@ -10,6 +10,7 @@ import (
 	"fmt"
 	"os"
 	"sort"
+	"sync"
 	"go/token"
 	"go/types"
 	"strings"
@@ -199,6 +200,7 @@ type memVal struct {
 	blk   *ssa.BasicBlock // nil: entry value
 	edges []ssa.Value     // per predecessor of blk
 	addr  ssa.Value       // an address expression of the location (for reporting, globals)
+	sites []*ssa.BasicBlock // blocks of the last-write places that define an untracked value
 	refs  []ssa.Instruction
 	pos   token.Pos
 }
@@ -337,6 +339,10 @@ func canonLoads(fn *ssa.Function, m *memInfo) map[*ssa.UnOp]ssa.Value {
 	}
 
 	// ---- phase 1: last-write places per category
+	siteBlock := map[string]*ssa.BasicBlock{}
+	for _, b := range fn.Blocks {
+		siteBlock[fmt.Sprintf("b%d", b.Index)] = b
+	}
 	killIn := make([]map[string]string, nb)
 	killOut := make([]map[string]string, nb)
 	killIn[0] = map[string]string{}
@@ -389,7 +395,9 @@ func canonLoads(fn *ssa.Function, m *memInfo) map[*ssa.UnOp]ssa.Value {
 			}
 			for _, ins := range b.Instrs {
 				for _, w := range insWrites[ins] {
-					out[w.cat] = fmt.Sprintf("i%p", ins)
+					id := "i" + instrID(ins)
+					out[w.cat] = id
+					siteBlock[id] = b
 				}
 			}
 			same := killOut[i] != nil && len(killOut[i]) == len(out)
@@ -440,6 +448,13 @@ func canonLoads(fn *ssa.Function, m *memInfo) map[*ssa.UnOp]ssa.Value {
 			return v
 		}
 		v := &memVal{fn: fn, key: id, cat: keyCat[key], typ: keyTyp[key], addr: keyAddr[key]}
+		if version != "entry" {
+			for _, sid := range strings.Split(version, "+") {
+				if sb := siteBlock[sid]; sb != nil {
+					v.sites = append(v.sites, sb)
+				}
+			}
+		}
 		if a := keyAddr[key]; a != nil {
 			v.pos = a.Pos()
 		}
@@ -540,7 +555,7 @@ func canonLoads(fn *ssa.Function, m *memInfo) map[*ssa.UnOp]ssa.Value {
 						delete(st, k)
 					}
 				}
-				killed[w.cat] = fmt.Sprintf("i%p", ins)
+				killed[w.cat] = "i" + instrID(ins)
 			}
 			if x, ok := ins.(*ssa.Store); ok {
 				if k, cat, ok := addrKey(x.Addr); ok {
@@ -580,7 +595,12 @@ func canonLoads(fn *ssa.Function, m *memInfo) map[*ssa.UnOp]ssa.Value {
 			return nil, false
 		}
 		st := map[string]memEntry{}
+		var keyList []string
 		for k := range keys {
+			keyList = append(keyList, k)
+		}
+		sort.Strings(keyList)
+		for _, k := range keyList {
 			vals := make([]ssa.Value, len(b.Preds))
 			var proto memEntry
 			allSame := true
@@ -700,4 +720,57 @@ func valID(v ssa.Value) string {
 	return fmtPtr(v)
 }
 
-func fmtPtr(v ssa.Value) string { return fmt.Sprintf("%p", v) }
+// detID gives SSA values and instructions identifiers that are the same in
+// every run (no addresses), so that orderings and keys are reproducible.
+var (
+	detMu    sync.Mutex
+	detInstr = map[*ssa.Function]map[ssa.Instruction]string{}
+)
+
+func instrID(ins ssa.Instruction) string {
+	fn := ins.Parent()
+	if fn == nil {
+		return "?"
+	}
+	detMu.Lock()
+	defer detMu.Unlock()
+	m := detInstr[fn]
+	if m == nil {
+		m = map[ssa.Instruction]string{}
+		for _, b := range fn.Blocks {
+			for i, in := range b.Instrs {
+				m[in] = fmt.Sprintf("b%d.%d", b.Index, i)
+			}
+		}
+		detInstr[fn] = m
+	}
+	if s, ok := m[ins]; ok {
+		return s
+	}
+	return "?" + ins.String()
+}
+
+func fmtPtr(v ssa.Value) string {
+	switch x := v.(type) {
+	case *memVal:
+		if x.blk != nil {
+			return fmt.Sprintf("mphi%d{%s}", x.blk.Index, x.key)
+		}
+		return "mem{" + x.key + "}"
+	case *ssa.Parameter:
+		return "p:" + x.Name()
+	case *ssa.FreeVar:
+		return "fv:" + x.Name()
+	case *ssa.Global:
+		return "g:" + x.String()
+	case *ssa.Const:
+		return "c:" + x.String()
+	case *ssa.Function:
+		return "f:" + x.String()
+	case *ssa.Builtin:
+		return "bi:" + x.Name()
+	case ssa.Instruction:
+		return instrID(x)
+	}
+	return "v:" + v.Name()
+}
